@@ -9,6 +9,8 @@ import (
 	"reflect"
 	"sort"
 	"strings"
+	implA2 "verifharness/props/twins/a/impl"
+	implB2 "verifharness/props/twins/b/impl"
 
 	"github.com/fullstorydev/grpchan"
 	"github.com/fullstorydev/grpchan/httpgrpc"
@@ -130,7 +132,9 @@ func genServiceDesc(r *rand.Rand, name string, ht interface{}) *grpc.ServiceDesc
 func goodHandler(r *rand.Rand, ht interface{}) interface{} {
 	switch ht.(type) {
 	case *ifaceA:
-		switch r.Intn(6) {
+		switch r.Intn(7) {
+		case 6:
+			return &implA2.H{N: r.Int()} // (another package has a type that prints the same name and lacks A)
 		case 4:
 			return mapImplA{map[string]int{"id": r.Int()}}
 		case 5:
@@ -148,6 +152,9 @@ func goodHandler(r *rand.Rand, ht interface{}) interface{} {
 		if r.Intn(3) == 0 {
 			return &implAB{r.Int()}
 		}
+		if r.Intn(5) == 0 {
+			return &implB2.H{N: r.Int()}
+		}
 		return &implB{r.Int()}
 	default:
 		if r.Intn(5) == 0 {
@@ -161,9 +168,9 @@ func goodHandler(r *rand.Rand, ht interface{}) interface{} {
 func badHandler(r *rand.Rand, ht interface{}) interface{} {
 	switch ht.(type) {
 	case *ifaceA:
-		return pick[interface{}](r, &implB{1}, implA{2}, "not a handler", 42, struct{}{}, &wrongSigA{}, &wrongSigAB{})
+		return pick[interface{}](r, &implB{1}, implA{2}, "not a handler", 42, struct{}{}, &wrongSigA{}, &wrongSigAB{}, &implB2.H{N: 1}, &implB2.H{N: 2})
 	case *ifaceB:
-		return pick[interface{}](r, &implA{1}, implB{2}, valImplA{3}, &wrongSigAB{})
+		return pick[interface{}](r, &implA{1}, implB{2}, valImplA{3}, &wrongSigAB{}, &implA2.H{N: 1}, &implA2.H{N: 2})
 	default:
 		return pick[interface{}](r, &implA{1}, &implB{2}, implAB{3}, &wrongSigAB{}, &wrongSigA{})
 	}
